@@ -112,6 +112,8 @@ def extension_cases(rng, tier):
         [(0x8020, 0xFF02, 0xFFFF, 'Pending')],                       # a private pending block up to the last code
         [(None, 0x1234, 0x1234, 'Warning'), (0x8021, 0x1234, 0x1234, 'Cancel')],
         [(0x8001, 0xB000, 0xB0FF, 'Warning'), (None, 0xB010, 0xB010, 'Failure')],
+        [(None, 0x0107, 0x0107, 'Warning'), (0x8110, 0x0107, 0x0107, 'Warning'), (None, 0x0107, 0x0107, 'Failure')],
+        [(None, 0xB100, 0xB10F, 'Warning'), (0x8001, 0xB100, 0xB10F, 'Warning'), (None, 0xB100, 0xB10F, 'Success')],
     ]
     for _ in range(2 if tier == 'quick' else 20):
         lo = rng.choice([1, 0x0100, 0xA000, 0xFF00, 0xFFF0])
